@@ -372,6 +372,9 @@ func pathEq(a, b []int) bool {
 }
 
 func (p *Path) store(ptr Ptr, v Value) {
+	if p.storeLog != nil { // speculative arm execution, mergemem.go
+		p.logStore(ptr, v)
+	}
 	if ptr.Sym != nil {
 		base := Ptr{Obj: ptr.Obj, Path: ptr.Path[:len(ptr.Path)-1]}
 		arr := (*p.slot(base)).(*ArrayV)
